@@ -4,7 +4,6 @@ import (
 	"fmt"
 	"go/token"
 	"go/types"
-	"sort"
 	"strconv"
 	"strings"
 	"unicode"
@@ -872,7 +871,7 @@ func (e *Engine) deepEq(a, b Value, o deepOpts, seen map[visitKey]bool, depth in
 		if xl != yl {
 			return tFalse
 		}
-		if x == y {
+		if x == y || xl == 0 {
 			return tTrue
 		}
 		r := tTrue
@@ -918,47 +917,57 @@ func (e *Engine) deepEq(a, b Value, o deepOpts, seen map[visitKey]bool, depth in
 type reach struct {
 	objs map[*Obj]bool
 	maps map[*MapV]bool
+	// viaIface: the object was only reached through an interface value (an `any` payload)
+	objVia map[*Obj]bool
+	mapVia map[*MapV]bool
 }
 
-func newReach() *reach { return &reach{map[*Obj]bool{}, map[*MapV]bool{}} }
+func newReach() *reach {
+	return &reach{map[*Obj]bool{}, map[*MapV]bool{}, map[*Obj]bool{}, map[*MapV]bool{}}
+}
 
 // collect gathers every mutable heap object reachable from v: pointees, non-empty
 // slice backings and maps.
-func (r *reach) collect(v Value) {
+func (r *reach) collect(v Value) { r.collectVia(v, false) }
+
+func (r *reach) collectVia(v Value, via bool) {
 	switch x := v.(type) {
 	case *Agg:
 		for _, f := range x.F {
-			r.collect(f)
+			r.collectVia(f, via)
 		}
 	case Pointer:
-		if x.O != nil && !r.objs[x.O] {
+		if x.O != nil && (!r.objs[x.O] || (r.objVia[x.O] && !via)) {
 			r.objs[x.O] = true
-			r.collect(x.O.Val)
+			r.objVia[x.O] = via
+			r.collectVia(x.O.Val, via)
 		}
 	case Slice:
-		if x.O != nil && x.Cap > 0 && !r.objs[x.O] {
+		if x.O != nil && x.Cap > 0 && (!r.objs[x.O] || (r.objVia[x.O] && !via)) {
 			r.objs[x.O] = true
-			r.collect(x.O.Val)
+			r.objVia[x.O] = via
+			r.collectVia(x.O.Val, via)
 		}
 	case *MapV:
-		if x != nil && !r.maps[x] {
+		if x != nil && (!r.maps[x] || (r.mapVia[x] && !via)) {
 			r.maps[x] = true
+			r.mapVia[x] = via
 			for _, en := range x.Entries {
-				r.collect(en.K)
-				r.collect(en.V)
+				r.collectVia(en.K, via)
+				r.collectVia(en.V, via)
 			}
 		}
 	case Iface:
-		r.collect(x.V)
+		r.collectVia(x.V, true)
 	case *Closure:
 		if x != nil {
 			for _, b := range x.Env {
-				r.collect(b)
+				r.collectVia(b, via)
 			}
 		}
 	case *ErrV:
 		for _, w := range x.Wrapped {
-			r.collect(w)
+			r.collectVia(w, via)
 		}
 	}
 }
@@ -974,21 +983,42 @@ func (e *Engine) freeze(v Value, on bool) {
 	}
 }
 
+// sharedHeap classifies the mutable heap shared by a and b: "" (disjoint),
+// "payload" (only objects held inside interface values, i.e. `any` payloads) or
+// "structure" (a pointee, slice backing or map reached through declared fields).
 func (e *Engine) sharedHeap(a, b Value) string {
+	// the arguments themselves arrive boxed in `any`: unwrap one level
+	if it, ok := a.(Iface); ok {
+		a = it.V
+	}
+	if it, ok := b.(Iface); ok {
+		b = it.V
+	}
 	ra, rb := newReach(), newReach()
 	ra.collect(a)
 	rb.collect(b)
-	var tags []string
+	res := ""
 	for o := range ra.objs {
 		if rb.objs[o] {
-			tags = append(tags, o.Tag)
+			if ra.objVia[o] && rb.objVia[o] {
+				if res == "" {
+					res = "payload"
+				}
+			} else {
+				res = "structure"
+			}
 		}
 	}
 	for m := range ra.maps {
 		if rb.maps[m] {
-			tags = append(tags, m.Tag)
+			if ra.mapVia[m] && rb.mapVia[m] {
+				if res == "" {
+					res = "payload"
+				}
+			} else {
+				res = "structure"
+			}
 		}
 	}
-	sort.Strings(tags)
-	return strings.Join(tags, ",")
+	return res
 }
